@@ -149,7 +149,20 @@ def run(ctx) -> None:
                 # is the enclosing hold an explicit one?
                 pass
         explicit = any(e.kind == "acquire" and e.extra.get("via") == "call" for p in paths for e in p.flat())
-        if explicit:
+        # an explicit acquire that is immediately followed by try/finally releasing the same lock is protected like `with`
+        protected = False
+        body = fi.node.body
+        for blk in [n.body for n in ast.walk(fi.node) if hasattr(n, "body") and isinstance(getattr(n, "body"), list)]:
+            for a, b in zip(blk, blk[1:]):
+                if isinstance(a, ast.Expr) and isinstance(a.value, ast.Call) and isinstance(a.value.func, ast.Attribute) and a.value.func.attr == "acquire" and isinstance(b, ast.Try) and b.finalbody:
+                    rel = [x for x in ast.walk(ast.Module(b.finalbody, [])) if isinstance(x, ast.Call) and isinstance(x.func, ast.Attribute) and x.func.attr == "release" and canon(ast.unparse(x.func.value)) == canon(ast.unparse(a.value.func.value))]
+                    if rel:
+                        protected = True
+        nacq = sum(1 for n in ast.walk(fi.node) if isinstance(n, ast.Call) and isinstance(n.func, ast.Attribute) and n.func.attr == "acquire")
+        nprot = sum(1 for blk in [n.body for n in ast.walk(fi.node) if hasattr(n, "body") and isinstance(getattr(n, "body"), list)] for a, b in zip(blk, blk[1:]) if isinstance(a, ast.Expr) and isinstance(a.value, ast.Call) and isinstance(a.value.func, ast.Attribute) and a.value.func.attr == "acquire" and isinstance(b, ast.Try) and b.finalbody)
+        if explicit and nprot >= nacq and protected:
+            ctx.ok(RB, f"{CLS}.{m} explicit-acquire regions protected by try/finally", fi.loc)
+        elif explicit:
             bad = []
             for p in paths:
                 def scan(evs, depth_explicit):
